@@ -29,8 +29,8 @@ func init() {
 			Pat: "ret(&DiscoveryConfiguration{" + common + ", " + ep2 + "})",
 			Req: []string{"def($iss, op.IssuerFromContext($ctx))"}},
 		{ID: "E8.discovery.server.endpoints", Fn: "op.(*LegacyServer).Discovery", P: []string{"s", "ctx"}, Kind: "call", Pat: "op.createDiscoveryConfigV2(_, $s.provider, _, &$s.endpoints)", Max: 1},
-		{ID: "E8.discovery.server.same-endpoints-routed", Fn: "op.RegisterLegacyServer", P: []string{"s"}, Kind: "ret any", Pat: "ret(op.RegisterServer($s, $s.Endpoints(), __))", Max: 1},
-		{ID: "E8.discovery.server.endpoints-getter", Fn: "op.(*LegacyServer).Endpoints", P: []string{"s"}, Kind: "ret any", Pat: "ret($s.endpoints)", Max: 1},
+		{ID: "E8.discovery.server.same-endpoints-routed", Fn: "op.RegisterLegacyServer", P: []string{"s"}, Kind: "ret any", Pat: "ret(op.RegisterServer($s, $s.Endpoints(), __))", Max: 1, Only: true},
+		{ID: "E8.discovery.server.endpoints-getter", Fn: "op.(*LegacyServer).Endpoints", P: []string{"s"}, Kind: "ret any", Pat: "ret($s.endpoints)", Max: 1, Only: true},
 		// routes
 		route("AuthorizationEndpoint", "op.authorizeHandler($o)"), route("TokenEndpoint", "op.tokenHandler($o)"), route("IntrospectionEndpoint", "op.introspectionHandler($o)"),
 		route("UserinfoEndpoint", "op.userinfoHandler($o)"), route("RevocationEndpoint", "op.revocationHandler($o)"), route("EndSessionEndpoint", "op.endSessionHandler($o)"),
@@ -44,7 +44,7 @@ func init() {
 		{ID: "E1.endpoint.absolute.nil", Fn: "op.(*Endpoint).Absolute", P: []string{"e", "host"}, Kind: "ret any", Pat: `ret("")`, Max: 1, Req: []string{"nil($e)"}},
 		{ID: "E1.endpoint.absolute.relative-to-issuer", Fn: "op.(*Endpoint).Absolute", P: []string{"e", "host"}, Kind: "ret any", Pat: "ret(op.absoluteEndpoint($host, $e.path))", Max: 1, Req: []string{`eq($e.url, "")`, "nonnil($e)"}},
 		{ID: "E1.endpoint.relative", Fn: "op.(*Endpoint).Relative", P: []string{"e"}, Kind: "ret any", Pat: "ret(op.relativeEndpoint($e.path))", Max: 1, Req: []string{"nonnil($e)"}},
-		{ID: "E8.endpoint.absolute.same-path", Fn: "op.absoluteEndpoint", P: []string{"host", "endpoint"}, Kind: "ret any", Pat: `ret(strings.TrimSuffix($host, "/") + op.relativeEndpoint($endpoint))`, Max: 1},
+		{ID: "E8.endpoint.absolute.same-path", Fn: "op.absoluteEndpoint", P: []string{"host", "endpoint"}, Kind: "ret any", Pat: `ret(strings.TrimSuffix($host, "/") + op.relativeEndpoint($endpoint))`, Max: 1, Only: true},
 		// T1/T3/T6: advertise-iff-supported lists (the iff part is the table rule below)
 		{ID: "E1.advertise.refresh", Fn: "op.GrantTypes", P: []string{"c"}, Kind: "call", Pat: "append($g, oidc.GrantTypeRefreshToken)", Max: 1, Req: []string{"true($c.GrantTypeRefreshTokenSupported())"}},
 		{ID: "E1.advertise.cc", Fn: "op.GrantTypes", P: []string{"c"}, Kind: "call", Pat: "append($g, oidc.GrantTypeClientCredentials)", Max: 1, Req: []string{"true($c.GrantTypeClientCredentialsSupported())"}},
@@ -88,19 +88,19 @@ func init() {
 		{ID: "E1.dispatch.iff.jwt", Fn: "op.Exchange", P: []string{"w", "r", "exchanger"}, Kind: "ret any", MutOK: []string{"r"},
 			Req: []string{"neq($r.FormValue(\"grant_type\"), oidc.GrantTypeBearer) || false($exchanger.GrantTypeJWTAuthorizationSupported()) || notis($exchanger, JWTAuthorizationGrantExchanger) || called(op.JWTProfile(__))"}},
 		// capability normal forms
-		{ID: "E7.capability.refresh", Fn: "op.(*Provider).GrantTypeRefreshTokenSupported", P: []string{"o"}, Kind: "ret any", Pat: "ret($o.config.GrantTypeRefreshToken)", Max: 1},
-		{ID: "E7.capability.cc", Fn: "op.(*Provider).GrantTypeClientCredentialsSupported", P: []string{"o"}, Kind: "ret any", Pat: "ret($ok)", Max: 1, Req: []string{"def($ok, $o.storage.(ClientCredentialsStorage), 1)"}},
-		{ID: "E7.capability.te", Fn: "op.(*Provider).GrantTypeTokenExchangeSupported", P: []string{"o"}, Kind: "ret any", Pat: "ret($ok)", Max: 1, Req: []string{"def($ok, $o.storage.(TokenExchangeStorage), 1)"}},
-		{ID: "E7.capability.device", Fn: "op.(*Provider).GrantTypeDeviceCodeSupported", P: []string{"o"}, Kind: "ret any", Pat: "ret($ok)", Max: 1, Req: []string{"def($ok, $o.storage.(DeviceAuthorizationStorage), 1)"}},
-		{ID: "E7.capability.s256", Fn: "op.(*Provider).CodeMethodS256Supported", P: []string{"o"}, Kind: "ret any", Pat: "ret($o.config.CodeMethodS256)", Max: 1},
-		{ID: "E7.capability.request-object", Fn: "op.(*Provider).RequestObjectSupported", P: []string{"o"}, Kind: "ret any", Pat: "ret($o.config.RequestObjectSupported)", Max: 1},
+		{ID: "E7.capability.refresh", Fn: "op.(*Provider).GrantTypeRefreshTokenSupported", P: []string{"o"}, Kind: "ret any", Pat: "ret($o.config.GrantTypeRefreshToken)", Max: 1, Only: true},
+		{ID: "E7.capability.cc", Fn: "op.(*Provider).GrantTypeClientCredentialsSupported", P: []string{"o"}, Kind: "ret any", Pat: "ret($ok)", Max: 1, Only: true, Req: []string{"def($ok, $o.storage.(ClientCredentialsStorage), 1)"}},
+		{ID: "E7.capability.te", Fn: "op.(*Provider).GrantTypeTokenExchangeSupported", P: []string{"o"}, Kind: "ret any", Pat: "ret($ok)", Max: 1, Only: true, Req: []string{"def($ok, $o.storage.(TokenExchangeStorage), 1)"}},
+		{ID: "E7.capability.device", Fn: "op.(*Provider).GrantTypeDeviceCodeSupported", P: []string{"o"}, Kind: "ret any", Pat: "ret($ok)", Max: 1, Only: true, Req: []string{"def($ok, $o.storage.(DeviceAuthorizationStorage), 1)"}},
+		{ID: "E7.capability.s256", Fn: "op.(*Provider).CodeMethodS256Supported", P: []string{"o"}, Kind: "ret any", Pat: "ret($o.config.CodeMethodS256)", Max: 1, Only: true},
+		{ID: "E7.capability.request-object", Fn: "op.(*Provider).RequestObjectSupported", P: []string{"o"}, Kind: "ret any", Pat: "ret($o.config.RequestObjectSupported)", Max: 1, Only: true},
 		// S256 is implemented by the verifier
 		{ID: "E1.pkce.s256-transform", Fn: "oidc.VerifyCodeChallenge", P: []string{"c", "v"}, Kind: "call", Pat: "oidc.NewSHACodeChallenge($x)", Max: 1, MutOK: []string{"v"},
 			Why: "the S256 transform is applied exactly when the stored challenge says S256", Req: []string{"eq($c.Method, oidc.CodeChallengeMethodS256)"}},
 		{ID: "E1.pkce.compare", Fn: "oidc.VerifyCodeChallenge", P: []string{"c", "v"}, Kind: "ret ok", MutOK: []string{"v"},
 			Why: "a verifier is accepted only if it (transformed under S256) equals the stored challenge",
 			Req: []string{"nonnil($c)", "eq($t, $c.Challenge)", "neq($c.Method, oidc.CodeChallengeMethodS256) || called(oidc.NewSHACodeChallenge(_))"}},
-		{ID: "E8.pkce.sha256", Fn: "oidc.NewSHACodeChallenge", P: []string{"code"}, Kind: "ret any", Pat: "ret(crypto.HashString(sha256.New(), $code, false))", Max: 1},
+		{ID: "E8.pkce.sha256", Fn: "oidc.NewSHACodeChallenge", P: []string{"code"}, Kind: "ret any", Pat: "ret(crypto.HashString(sha256.New(), $code, false))", Max: 1, Only: true},
 		// T5: the token issuer is the discovery issuer
 		{ID: "E8.issuer.id-token.code", Fn: "op.CreateTokenResponse", Kind: "call", Pat: "op.CreateIDToken($ctx, op.IssuerFromContext($ctx), __)", Max: 1},
 		{ID: "E8.issuer.id-token.device", Fn: "op.CreateDeviceTokenResponse", Kind: "call", Pat: "op.CreateIDToken($ctx, op.IssuerFromContext($ctx), __)", Max: 1},
